@@ -176,7 +176,7 @@ def validate_translator():
         for ops, exp in VALIDATION:
             m = Machine(prog)
             m.env = WriteEnv()
-            w, _ = wc.new_writer(None)
+            w, _ = wc.new_writer(None, m)
             slot = [w]
             try:
               for o in ops:
